@@ -186,11 +186,13 @@ def _itp_run(bench, hq, outs, stim, layer):
 
     async def fn(ctx):
         for valid, dw0, dw1 in stim:
+            # dw1 = the 96 bits after DW0: DW1 | DW2 << 32 | DW3 << 64 (DW3 = crc16, header sequence number, reserved,
+            # hub depth, delayed, deferred, crc5) -- none of them is part of the timestamp
             ctx.set(hq.valid, int(valid))
-            ctx.set(hq.header.dw0, dw0)
-            ctx.set(hq.header.dw1, dw1)
+            ctx.set(hq.header, (dw0 & 0xFFFFFFFF) | ((dw1 & ((1 << 96) - 1)) << 32))
             lo, hi = _lim(dw0)
-            r = {"valid": bool(valid), "lo": lo, "hi": hi, "ready": bool(ctx.get(hq.ready))}
+            r = {"valid": bool(valid), "lo": lo, "hi": hi, "ready": bool(ctx.get(hq.ready)),
+                 "other": [(dw1 >> (16 * k)) & 0xFFFF for k in range(6)]}
             if layer:
                 r.update(upd=False, bic=int(ctx.get(outs[0])), delta=0)
             else:
@@ -219,7 +221,7 @@ def _itp_random_stim(rng, n, cmax, dmax, layer):
                 stim.append((0, rng.getrandbits(32), 0))
             else:
                 ty = rng.choice([t for t in ITP_TYPES if t != 12])
-                stim.append((1, (rng.getrandbits(27) << 5) | ty, rng.getrandbits(32)))
+                stim.append((1, (rng.getrandbits(27) << 5) | ty, rng.getrandbits(96)))
             continue
         if k < 0.45:
             c = rng.choice([0, 1, cmax - 1, rng.randrange(cmax), rng.randrange(cmax)])
@@ -229,13 +231,13 @@ def _itp_random_stim(rng, n, cmax, dmax, layer):
                     c = rng.randrange(cmax)
                 last_c = c
                 quiet = ITP_MAXLAT + 1
-            stim.append((1, _itp_dw0(12, c, d), rng.getrandbits(32)))
+            stim.append((1, _itp_dw0(12, c, d), rng.getrandbits(96)))
             if not layer and rng.random() < 0.4:       # back-to-back ITPs
                 for _ in range(rng.randint(1, 3)):
-                    stim.append((1, _itp_dw0(12, rng.randrange(cmax), rng.randrange(dmax)), 0))
+                    stim.append((1, _itp_dw0(12, rng.randrange(cmax), rng.randrange(dmax)), rng.getrandbits(96)))
         elif k < 0.75:
             ty = rng.choice([t for t in ITP_TYPES if t != 12] + [13, 28, 14])
-            stim.append((1, (rng.getrandbits(27) << 5) | ty, rng.getrandbits(32)))
+            stim.append((1, (rng.getrandbits(27) << 5) | ty, rng.getrandbits(96)))
         else:
             for _ in range(rng.randint(1, 4)):
                 stim.append((0, rng.getrandbits(32), 0))
@@ -275,6 +277,8 @@ def check_C47(rep):
     rng = rep.rng
     rep.rule = ("cycles of the real TimestampPacketReceiver / USB3ProtocolLayer validated against Itp.tla; non-trivial = "
                 "a cycle in which an ITP is accepted or a report is made; distinct by (DUT, counter, delta, report)")
+    rep.assume("every other header field (DW1, DW2, link control word incl. hub depth / delayed / deferred) is arbitrary "
+               "and must not matter")
     rep.assume("a header is a timestamp packet iff DW0[4:0] = 01100b; headers are presented on the header queue for one "
                "or more cycles and count as received in each cycle with valid and ready")
     rep.assume("latency from acceptance to report is free up to %d cycles; reported values are held until the next report"
@@ -304,7 +308,7 @@ def check_C47(rep):
     #    `witness` uses the full 14/13-bit ranges.
     jobs = []      # (dut, stim, origin, klass)
     for b in behs:                                    # spec -> code: TLC-chosen header schedules (full-range values)
-        stim = [(int(st["in"]["valid"]), st["in"]["lo"] | (st["in"]["hi"] << 16), 0) for _, st in b[1:]]
+        stim = [(int(st["in"]["valid"]), st["in"]["lo"] | (st["in"]["hi"] << 16), rng.getrandbits(96)) for _, st in b[1:]]
         jobs.append(("rx", stim, "tlc-simulate", "witness"))
     n_rand, length = (10, 120) if quick else (80, 300)
     for k in range(n_rand):
@@ -332,6 +336,18 @@ def check_C47(rep):
     for hold in range(1, 5):
         jobs.append(("rx", [(1, _itp_dw0(12, 1, 1), 0)] * hold + [(1, _itp_dw0(4, 1, 1), 0)] * hold +
                      [(1, _itp_dw0(12, 0, 0), 0)] * hold, "sweep-hold", "clean"))
+    # every other header field must not matter: each of the 96 bits after DW0 set individually (DW1, DW2, and in DW3
+    # crc16, header sequence number, reserved, hub depth, delayed, deferred, crc5), hub depth 0..7 x delayed x deferred;
+    # the counter/delta alternate so that every packet must produce a visible report
+    def _dw3(hub, dl, df, seq=0):
+        return ((seq & 7) << 16 | (hub & 7) << 22 | (dl & 1) << 25 | (df & 1) << 26) << 64
+    extras = [1 << b for b in range(96)] + [_dw3(h, dl, df, h) for h in range(8) for dl in (0, 1) for df in (0, 1)] + \
+        [(1 << 96) - 1]
+    for dut, gap in (("rx", 1), ("layer", ITP_MAXLAT + 1)):
+        st = []
+        for k, x in enumerate(extras):
+            st += [(1, _itp_dw0(12, k & 1, (k & 1) ^ (1 if dut == "rx" else 0)), x)] + [(0, 0, x)] * gap
+        jobs.append((dut, st, "sweep-other-header-fields", "clean"))
     for _, stim, _, _ in jobs:
         stim.extend([(0, 0, 0)] * (ITP_MAXLAT + 2))
 
@@ -555,6 +571,9 @@ def _setup_run(bench, dut, stim):
             ctx.set(dut.sink.first, int(st["first"]))
             ctx.set(dut.sink.last, int(st["last"]))
             ctx.set(dut.sink.payload, st["data"])
+            if "hdr" in st:                       # every other field of the data packet header: arbitrary
+                ctx.set(dut.header_in, st["hdr"])
+            ctx.set(dut.sink.ready, (st.get("hdr", 0) >> 3) & 1)      # the sink's ready is documented as read-only/ignored
             ctx.set(dut.header_in.setup, int(st["setup"]))
             ctx.set(dut.rx_good, int(st["good"]))
             ctx.set(dut.rx_bad, int(st["bad"]))
@@ -567,6 +586,29 @@ def _setup_run(bench, dut, stim):
             await ctx.tick("ss")
     bench.run(fn)
     return rec
+
+
+def _setup_headers(stim, rng):
+    """Give every cycle a full 128-bit data packet header: random but stable from one verdict to the next (as the
+    link layer's header register), type DATA, data_length = the bytes the coming packet really carries; the Setup
+    flag is driven separately from the stimulus.  Fields the property does not mention must not matter."""
+    out = []
+    k = 0
+    while k < len(stim):
+        j = k
+        nbytes = 0
+        while j < len(stim):
+            nbytes += stim[j]["n"]
+            if stim[j]["good"] or stim[j]["bad"]:
+                break
+            j += 1
+        h = rng.getrandbits(128)
+        h = (h & ~0x1F) | 8                                   # type = DATA
+        h = (h & ~(0xFFFF << 48)) | ((nbytes & 0xFFFF) << 48)  # DW1[31:16] data length
+        for c in stim[k:j + 1]:
+            out.append(dict(c, hdr=h))
+        k = j + 1
+    return out
 
 
 def _setup_packet_cycles(rng, payload, setup, verdict, gap_prob=0.25, noise=True):
@@ -881,7 +923,7 @@ def check_C48(rep):
     sbench, sdut = _setup_bench()
     sitems = []
     for stim, origin, klass in sjobs:
-        tr = _setup_run(sbench, sdut, stim)
+        tr = _setup_run(sbench, sdut, _setup_headers(stim, rng))
         rep.add_eval(len(tr))
         ln, fl = 0, False
         for r in tr:
@@ -1126,6 +1168,11 @@ def _inep_run(rig, script):
                 ctx.set(hin.next_sequence, ack["seq"])
                 ctx.set(hin.number_of_packets, ack["nump"])
                 ctx.set(hin.retry_required, ack["rty"])
+                # fields the property does not mention must not matter
+                ctx.set(hin.packets_pending, rng.getrandbits(1))
+                ctx.set(hin.host_error, ack["rty"] & rng.getrandbits(1))
+                ctx.set(hin.direction, 1)
+                ctx.set(hin.status_received, 0)
             elif rng.random() < script.get("other", 0.0):
                 oep = (epn + rng.randint(1, 15)) % 16
                 oa = {"ep": oep, "seq": rng.randrange(32), "nump": rng.randrange(3), "rty": rng.randrange(2)}
@@ -1134,9 +1181,20 @@ def _inep_run(rig, script):
                 ctx.set(hin.next_sequence, oa["seq"])
                 ctx.set(hin.number_of_packets, oa["nump"])
                 ctx.set(hin.retry_required, oa["rty"])
+                ctx.set(hin.packets_pending, rng.getrandbits(1))
+                ctx.set(hin.host_error, rng.getrandbits(1))
+                ctx.set(hin.direction, rng.getrandbits(1))
                 events.append(dict(oa, e="ack", t=t))
             else:
                 ctx.set(hin.ack_received, 0)
+                # a STATUS TP (for a control endpoint) is not an ACK: strobe it now and then with arbitrary fields
+                st_noise = rng.random() < script.get("other", 0.0)
+                ctx.set(hin.status_received, int(st_noise))
+                if st_noise:
+                    ctx.set(hin.endpoint_number, rng.choice([epn, 0, rng.randrange(16)]))
+                    ctx.set(hin.next_sequence, rng.randrange(32))
+                    ctx.set(hin.number_of_packets, rng.randrange(4))
+                    ctx.set(hin.retry_required, rng.getrandbits(1))
 
             # ---- observe this cycle (inputs settled, before the edge)
             n_ev = len(events)
